@@ -243,6 +243,7 @@ struct Inner {
     pub stats: Stats,
     mutations: Vec<MutationRec>,
     trace: Option<Vec<String>>,
+    trace_paused: bool,
     /// per-op call counts (profile), indexed by op
     profile: Vec<[u32; 10]>,
     max_file: u64,
@@ -416,6 +417,9 @@ impl Inner {
         }
         self.stats.fired[call.idx()][d as usize] += 1;
         self.stats.sched_hash = fnv1a(self.stats.sched_hash, &[call as u8, d as u8]);
+        if self.trace_paused {
+            return;
+        }
         if let Some(t) = self.trace.as_mut() {
             t.push(format!(
                 "op{} #{} {:?} {} -> {}",
@@ -432,6 +436,9 @@ impl Inner {
         self.stats.hostile_fired[HOSTILES.iter().position(|x| *x == h).unwrap()] += 1;
         self.stats.fired[call.idx()][Done::Hostile as usize] += 1;
         self.stats.sched_hash = fnv1a(self.stats.sched_hash, &[call as u8, 0x80 | h as u8]);
+        if self.trace_paused {
+            return h.to_err();
+        }
         if let Some(t) = self.trace.as_mut() {
             t.push(format!(
                 "op{} #{} {:?} {} -> HOSTILE {:?}",
@@ -477,6 +484,7 @@ impl SimFs {
                 stats: Stats::default(),
                 mutations: vec![],
                 trace: None,
+                trace_paused: false,
                 profile: vec![],
                 max_file: MAX_FILE,
                 storage_bytes: 0,
@@ -498,6 +506,12 @@ impl SimFs {
 
     pub fn enable_trace(&self) {
         self.inner.borrow_mut().trace = Some(vec![]);
+    }
+
+    /// Logging must not perturb measurements: the leak monitor pauses the trace while it
+    /// compares live bytes.
+    pub fn pause_trace(&self, paused: bool) {
+        self.inner.borrow_mut().trace_paused = paused;
     }
 
     pub fn take_trace(&self) -> Vec<String> {
